@@ -13,7 +13,7 @@ for b in "$@"; do (cd "$WT" && git apply "$b") || { echo "base $b does not apply
 (cd "$WT" && git apply "$DIFF") || { echo "diff does not apply"; exit 2; }
 PKGS=$(cd "$WT" && git diff --name-only | xargs -n1 dirname | sort -u | sed 's|^|./|')
 echo "== $ID $(basename "$DIFF"): repo tests for $PKGS"
-(cd "$WT" && go1.26 test -count=1 $PKGS 2>&1 | tail -3)
+(cd "$WT" && go1.26 test -count=1 $PKGS 2>&1 | grep -E "^(--- FAIL|ok|FAIL|panic:)|build failed|declared and not used" | head -12)
 echo "== $ID $(basename "$DIFF"): check"
 cd /verif && ./vcheck "$ID" --repo "$WT" > "/dev/shm/st-$ID-$(basename "$DIFF").log" 2>&1
 rc=$?
